@@ -942,10 +942,12 @@ func (self *AofChannel) Run() {
 		resetTimer(timer, 200*time.Millisecond)
 		select {
 		case <-self.queueWaiter:
+			verifPoint(VP_AOF_CHANNEL_WAKE)
 			self.aof.handeLockAofChannel(self)
 		case <-timer.C:
 			self.aof.syncFileAofChannel(self)
 			<-self.queueWaiter
+			verifPoint(VP_AOF_CHANNEL_WAKE)
 			self.aof.handeLockAofChannel(self)
 		}
 	}
